@@ -49,7 +49,6 @@ const (
 	pReuseViaCopy
 	pReuseViaPointer
 	pGrownAppend
-	pGrownSameCapPut
 	// C11
 	pXTaskRecycle
 	pSameTaskRecycle
@@ -71,7 +70,7 @@ var probeNames = [numProbes]string{
 	"reuse", "reuse_after_appendsample", "reuse_after_append_buffer", "reuse_after_slice_put",
 	"reuse_with_dirt_beyond_length", "reuse_with_length_positive", "get_while_3_outstanding",
 	"get_after_gc_emptied_pool", "rejected_put", "reuse_via_allocator_copy", "reuse_via_allocator_pointer",
-	"append_that_grew", "grown_buffer_same_capacity_put",
+	"append_that_grew",
 	"recycled_across_tasks", "recycled_within_task", "get_while_other_task_holds", "gc_between_put_and_get",
 	"two_tasks_holding_at_same_step", "by_value_allocator_copies", "task_holding_two_buffers",
 	"same_entry_point_adjacent_steps", "reader_writer_adjacent_neighbouring_frames",
@@ -79,7 +78,7 @@ var probeNames = [numProbes]string{
 }
 
 var probeProp = [numProbes]string{
-	"C10", "C10", "C10", "C10", "C10", "C10", "C10", "C10", "C10", "C10", "C10", "C10", "C10",
+	"C10", "C10", "C10", "C10", "C10", "C10", "C10", "C10", "C10", "C10", "C10", "C10",
 	"C11", "C11", "C11", "C11", "C11", "C11", "C11",
 	"C19", "C19", "C19", "C19", "C19",
 }
